@@ -53,9 +53,9 @@ Theorem C11_path_valid :
 Proof. exact as_path_valid. Qed.
 Print Assumptions C11_path_valid.
 
-(* ---- clause "including start == goal": the path is ([start], []) for every positive budget *)
+(* ---- clause "including start == goal": the path is ([start], []) for every budget (popping the goal is free) *)
 Theorem C11_start_eq_goal :
-  forall adj h s early n, as_path adj h s s early (S n) = AS_Path [s] [] None.
+  forall adj h s early n, as_path adj h s s early n = AS_Path [s] [] None.
 Proof. exact as_path_start_eq_goal. Qed.
 Print Assumptions C11_start_eq_goal.
 
@@ -152,11 +152,29 @@ Proof. exact mt_wrap_sq_min_image. Qed.
 Print Assumptions C11_periodic_min_image.
 
 (* ---- clause "always found when the iteration budget is at least the number of edges (the budget the flux solver uses)"
-   (astar_budget), for the mode the flux solver uses: early_stopping=True.  Graph hypotheses: edge ids below E, an edge id has
-   one unordered pair of ends, the goal is reachable from start (a walk exists); cost hypotheses as for C11_astar_optimal.
-   Then for every budget maxits >= E the search returns a path (no PathFindingError), and it is a valid simple chain.
-   (Accounting: every queue entry but the first is paid for by a distinct edge not incident to the goal.) *)
+   (astar_budget), BOTH stopping modes, for the loop after fix 475bcae (maxits bounds the number of expanded nodes; popping
+   the goal is free).  Graph hypotheses: edge ids below E, an edge id has one unordered pair of ends, the goal is reachable
+   from start (a walk exists); cost hypotheses as for C11_astar_optimal.  Then for every budget maxits >= E the search
+   returns a path (no PathFindingError), and it is a valid simple chain.
+   (Accounting: every queue entry but the first is paid for by a distinct edge; when E nodes have been expanded and the queue
+   is not empty, every edge has paid, hence the goal has an entry and it is the only one left.)
+   Before the fix the full-search instance was FALSE (path graph 0 - 1 - 2: third pop needed with E = 2): finding F2. *)
 Theorem C11_astar_budget :
+  forall (adj : nat -> list (nat * nat)) (h : nat -> nat -> Z) (start goal E : nat) (early : bool),
+    (forall a b e, In (b, e) (adj a) -> (0 <= h a b)%Z /\ (a <> b -> (0 < h a b)%Z)) ->
+    (forall a b e, In (b, e) (adj a) -> (h a goal <= h a b + h b goal)%Z) ->
+    (forall n, (0 <= h n goal)%Z) ->
+    goal <> start ->
+    (forall a b e, In (b, e) (adj a) -> (e < E)%nat) ->
+    (forall a b e a' b', In (b, e) (adj a) -> In (b', e) (adj a') -> (a = a' /\ b = b') \/ (a = b' /\ b = a')) ->
+    (exists ws es, as_chain adj ws es /\ hd_error ws = Some goal /\ last ws goal = start) ->
+    forall maxits, (E <= maxits)%nat ->
+      exists ns es mg, as_path adj h start goal early maxits = AS_Path ns es mg /\ as_valid_chain adj start goal ns es.
+Proof. exact as_path_budget. Qed.
+Print Assumptions C11_astar_budget.
+
+(* the full-search instance, spelled out (replaces C11_budget_n_edges_full_search_refuted of the previous loop) *)
+Theorem C11_astar_budget_full :
   forall (adj : nat -> list (nat * nat)) (h : nat -> nat -> Z) (start goal E : nat),
     (forall a b e, In (b, e) (adj a) -> (0 <= h a b)%Z /\ (a <> b -> (0 < h a b)%Z)) ->
     (forall a b e, In (b, e) (adj a) -> (h a goal <= h a b + h b goal)%Z) ->
@@ -166,25 +184,21 @@ Theorem C11_astar_budget :
     (forall a b e a' b', In (b, e) (adj a) -> In (b', e) (adj a') -> (a = a' /\ b = b') \/ (a = b' /\ b = a')) ->
     (exists ws es, as_chain adj ws es /\ hd_error ws = Some goal /\ last ws goal = start) ->
     forall maxits, (E <= maxits)%nat ->
-      exists ns es mg, as_path adj h start goal true maxits = AS_Path ns es mg /\ as_valid_chain adj start goal ns es.
-Proof. exact as_path_budget. Qed.
-Print Assumptions C11_astar_budget.
+      exists ns es mg, as_path adj h start goal false maxits = AS_Path ns es mg /\ as_valid_chain adj start goal ns es.
+Proof. exact (fun adj h start goal E => as_path_budget adj h start goal E false). Qed.
+Print Assumptions C11_astar_budget_full.
 
-(* ---- clause "always found when the iteration budget is at least the number of edges".
-   FALSE of the faithful model for a full search (early_stopping=False) on a tree: the path graph 0 - 1 - 2 has
-   2 edges, the goal is popped in the 3rd iteration.  With early stopping (the mode the flux solver uses) the
-   same budget is enough.  Replayed on /repo: path_between_vertices on a 3-vertex chain raises PathFindingError
-   (harness/c11.py, out-of-domain probe; such lattices have no plaquettes and are outside the quantified families). *)
-Theorem C11_budget_n_edges_full_search_refuted :
-  exists (adj : nat -> list (nat * nat)) (h : nat -> nat -> Z) (n_edges : nat),
+(* the budget is tight: on the path graph 0 - 1 - 2 (E = 2) one expansion less is not enough *)
+Theorem C11_budget_tight :
+  exists (adj : nat -> list (nat * nat)) (h : nat -> nat -> Z),
     adj = (fun n => match n with 0 => [(1, 0)] | 1 => [(0, 0); (2, 1)] | 2 => [(1, 1)] | _ => [] end)%nat /\
-    n_edges = 2%nat /\
     (forall a b e, In (b, e) (adj a) -> (0 <= h a b)%Z /\ (a <> b -> (0 < h a b)%Z)) /\
-    (exists m, as_path adj h 0 2 false n_edges = AS_PathFindingError m) /\
-    (exists m, as_path adj h 0 2 false (S n_edges) = AS_Path [2; 1; 0]%nat [1; 0]%nat m) /\
-    (exists m, as_path adj h 0 2 true n_edges = AS_Path [2; 1; 0]%nat [1; 0]%nat m).
-Proof. exact as_budget_refuted. Qed.
-Print Assumptions C11_budget_n_edges_full_search_refuted.
+    (exists m, as_path adj h 0 2 false 1 = AS_PathFindingError m) /\
+    (exists m, as_path adj h 0 2 false 2 = AS_Path [2; 1; 0]%nat [1; 0]%nat m) /\
+    (exists m, as_path adj h 0 2 true 1 = AS_PathFindingError m) /\
+    (exists m, as_path adj h 0 2 true 2 = AS_Path [2; 1; 0]%nat [1; 0]%nat m).
+Proof. exact as_budget_tight. Qed.
+Print Assumptions C11_budget_tight.
 
 (* ---- non-vacuity: the hypotheses are satisfiable on concrete instances *)
 Example C11_path_nonvacuous :
